@@ -98,16 +98,16 @@ def _mk(fams, codes, env_excl=(), props=None, gen=("GenGuards.v", "GenConfig.v")
 
 
 SIM = {
-    "C01": _mk(["G1", "G2", "G3", "G4", "G7", "G8"], range(101, 110)),
+    "C01": _mk(["G1", "G2", "G3", "G4", "G7", "G8", "G9"], range(101, 110)),
     "C02": _mk(["G1", "G6", "G7", "G5"], [201, 202], NOFAULT | {ENV_TAKEOVER}),
-    "C03": _mk(["G2", "G3", "G8"], range(301, 305)),
-    "C04": _mk(["G3", "G2", "G4"], range(401, 406)),
+    "C03": _mk(["G2", "G3", "G8", "G9"], range(301, 305)),
+    "C04": _mk(["G3", "G9", "G2", "G4"], range(401, 406)),
     "C06": _mk(["G8", "G1"], [601]),
     "C11": _mk(["G5", "G7"], range(1101, 1107)),
     "C12": _mk(["G6"], range(1201, 1206)),
-    "C05": _mk(["G1", "G2", "G3", "G4", "G6", "G7"], range(501, 507)),
+    "C05": _mk(["G1", "G2", "G3", "G4", "G6", "G7", "G9"], range(501, 507)),
     "C07": _mk(["G1", "G7"], range(701, 706), NOFAULT | {ENV_TAKEOVER, ENV_CONN, ENV_UNHEALTHY}),
-    "C08": _mk(["G1", "G2", "G3", "G5", "G6", "G7"], range(801, 807)),
+    "C08": _mk(["G1", "G2", "G3", "G5", "G6", "G7", "G9"], range(801, 807)),
     "C09": _mk(["G7", "G1", "G5"], range(901, 910)),
     "C10": _mk(["G4", "G3"], range(1001, 1004),
                code_env={1002: NOFAULT | {9012, ENV_CONN, ENV_UNHEALTHY}, 1003: NOFAULT | {9012, ENV_CONN, ENV_UNHEALTHY}}),
